@@ -299,6 +299,10 @@ def run_sequence(drv, rng, nops, check_events=True):
                 moved = [src] + m.kids(src)
                 if de is not None:
                     dead_ids.append(ids[dst])
+                    if drv.id_style == "oid":
+                        # the empty folder that was replaced is gone: its id must be reported as no longer existing
+                        muts.append((step, ids[dst], False))
+                        run_sequence.replaced += 1
                     del m.t[dst]
                 for old in moved:
                     new = dst + old[len(src):]
@@ -399,9 +403,14 @@ def run_sequence(drv, rng, nops, check_events=True):
                 ev_missing = len(missing)
             else:
                 probs.append(("mutation never reported by the event stream", missing[:3], len(evlog)))
+    run_sequence.last_replaced = run_sequence.replaced
+    run_sequence.replaced = 0
     run_sequence.last_missing = ev_missing if drv.kind == "fs" else 0
     run_sequence.last_muts = len(muts)
     return probs, n_ok, len(evlog), ev_inconclusive
+
+
+run_sequence.replaced = 0
 
 
 def norm_id(drv, oid):
@@ -453,6 +462,7 @@ def shard(ctx, acc):
             drv.close()
         acc.evaluations += 1
         acc.count("sequences_mock")
+        acc.count("folder_renamed_over_an_empty_folder", run_sequence.last_replaced)
         acc.count("successful_mutations", n_ok)
         acc.count("events_seen", nev)
         acc.add("flavours", "mock oid_is_path=%s case_sensitive=%s" % fl[1:])
